@@ -126,6 +126,18 @@ CHECKS = [
              "hour-of-week and occupancy features are decided by the bounded-exhaustive part only",
      "not_covered": ["pandas' own month arithmetic across timezones (exercised by the bounded part)"],
      },
+    {"id": "C14", "level": "proof", "modules": ["contracts.C14_validators"], "bounded": ["bounded.C14_settings"],
+     "technique": "deductive verification of the cross-field validators and the developer-mode gate (pyvc, z3) + table obligations + bounded-exhaustive enumeration of every settings field on the real pydantic classes",
+     "text": "Proof: each cross-field validator of the daily settings raises iff its documented condition, for all numeric values; the recursive "
+             "lock check runs iff developer_mode is off. Table obligations: the defaults of every settings class equal the approved constants (for "
+             "the current daily profile the published dump in the documentation), for every order in which the model families are first "
+             "constructed; the set of developer-only flags equals the approved set. Bounded-exhaustive (labelled so): every field x alternative "
+             "values x key variants x dict/object x developer_mode x silent flag on the real classes.",
+     "note": "pydantic's metaclass behaviour (validators run on every construction, frozen models) is outside the verifier's reach and is what the "
+             "bounded enumeration exercises; approved constants for legacy/billing/hourly are the pinned source (change detector); the hourly "
+             "tree has no developer flags, so the lock is vacuous there",
+     "not_covered": ["settings changed after construction through private attributes"],
+     },
 ]
 _NOT_BUILT = "machinery for this property is not built yet (see DESIGN.md §7 build order); not claimed"
 NOT_APPLICABLE = [{"property_id": f"C{n:02d}", "reason": _NOT_BUILT} for n in range(1, 21) if n != 15 and f"C{n:02d}" not in {c["id"] for c in CHECKS}] + [
